@@ -144,6 +144,7 @@ def main(argv=None):
     backends = set()
     samples = []
     functions = {}
+    kinds_count = {}
     for n in names:
         r = results[n]
         functions.update(r.get("functions", {}))
@@ -168,6 +169,8 @@ def main(argv=None):
                     errors.append((full, "canary was provable: the contract or engine is too weak / unsound"))
                 continue
             is_bounded = "[bounded" in n
+            if not is_bounded:
+                kinds_count[d["kind"]] = kinds_count.get(d["kind"], 0) + 1
             if is_bounded:
                 b = bounded_sym.setdefault(n, {"obligations": 0, "discharged": 0})
                 b["obligations"] += 1
@@ -274,6 +277,9 @@ def main(argv=None):
             "checker_cmd": f"./check {prop} --tier {tier}",
             "trusted_base": TRUSTED_BASE,
             "functions_under_contract": functions,
+            "real_bodies_executed_symbolically": sorted({q for n in names for q in results[n].get("executed_bodies", [])}),
+            "callees_seen_only_through_an_assumed_or_separately_proved_contract": sorted({q for n in names for q in results[n].get("seen_through_contract", [])}),
+            "obligations_by_kind": kinds_count,
             "units": {n: {"status": results[n]["status"], "paths": results[n].get("paths"), "time_s": results[n].get("time_s"), "message": results[n].get("message", "")[:300]} for n in names},
             "backends": sorted(backends),
             "solver_time_s": round(solver_time, 2),
